@@ -13,6 +13,19 @@ import (
 func TestVX_C18_SM3(t *testing.T) {
 	r := vx.Begin("C18", "sm3-tt", "tt[j] = T_j <<< (j mod 32) for all 64 j; initial value constants = GB/T 32905 IV. Finite space enumerated completely")
 	defer r.End()
+	// the table must equal its derivation when the compression function reads it: a table filled on first use is read
+	// here only after every entry point (one-shot, streaming with a block boundary, Sum, Reset) has run
+	{
+		msg := vx.Fill("c18w-sm3", 200)
+		SumSM3(msg)
+		h := New()
+		h.Write(msg[:70])
+		h.Sum(nil)
+		h.Reset()
+		h.Write(msg)
+		h.Sum(nil)
+		r.Set("workload_calls_before_table_check", 7)
+	}
 	for j := 0; j < 64; j++ {
 		r.Eval(1)
 		if tt[j] != sm3ref.T(j) {
